@@ -51,6 +51,8 @@ func init() {
 }
 
 func runC02(c *Ctx, r *Report) {
+	importFoundation(c, r, "C02", "read-loop")
+	importFoundation(c, r, "C02", "transport-pipe")
 	r.Rule("C02/bounds", "every index/slice of the decoder satisfies 0<=i<len / 0<=lo<=hi<=len (len, not cap) on every path", 20)
 	r.Rule("C02/conv-checked", "every strconv conversion error is tested and leads to an error return", 1)
 	r.Rule("C02/failed-on-parse-error", "every error of the chunk parser stores a non-nil OperationError in Failed", 1)
